@@ -63,9 +63,34 @@ def contract_of(lines):
     return split_clauses(req), split_clauses(ens)
 
 
+def impl_ranges(text):
+    """[(start, end, TypeName)] of the top-level `impl ... Type {` blocks of a template (methods are keyed by their type: the same
+    method name on different types, e.g. CosetTable::wf and PartialDSet::wf, are different spec functions)"""
+    out = []
+    for m in re.finditer(r'^impl\b[^\n{]*', text, flags=re.M):
+        head = re.sub(r'<[^<>]*>', '', re.sub(r'<[^<>]*>', '', m.group(0)))
+        t = re.search(r'\bfor\s+&?\s*(\w+)', head) or re.match(r'impl\s+&?\s*(\w+)', head)
+        k = text.find('{', m.end() - 1)
+        if not t or k < 0:
+            continue
+        depth, j = 0, k
+        while j < len(text):
+            if text[j] == '{':
+                depth += 1
+            elif text[j] == '}':
+                depth -= 1
+                if depth == 0:
+                    break
+            j += 1
+        out.append((k, j, t.group(1)))
+    return out
+
+
 def spec_defs(text):
-    """{name: normalised definition text} of every `spec fn NAME` with a body in a template"""
+    """{key: normalised definition text} of every `spec fn NAME` with a body in a template; key = NAME for free functions and
+    Type::NAME for methods"""
     out = {}
+    impls = impl_ranges(text)
     for m in re.finditer(r'\bspec fn (\w+)', text):
         k = text.find('{', m.end())
         semi = text.find(';', m.end())
@@ -81,7 +106,9 @@ def spec_defs(text):
                     break
             j += 1
         body = text[m.start():j + 1]
-        out.setdefault(m.group(1), re.sub(r'\s+', '', re.sub(r'//.*', '', body)))
+        owner = [t for a, b, t in impls if a < m.start() < b]
+        key = ('%s::%s' % (owner[0], m.group(1))) if owner else m.group(1)
+        out.setdefault(key, re.sub(r'\s+', '', re.sub(r'//.*', '', body)))
     return out
 
 
@@ -94,10 +121,12 @@ def compare_spec_fns(clauses, imp_defs, exp_defs, what):
         if n in seen:
             continue
         seen.add(n)
-        if n in imp_defs and n in exp_defs:
-            if imp_defs[n] != exp_defs[n]:
-                problems.append('%s: spec fn `%s` is defined differently in the importing and the exporting unit' % (what, n))
-            todo |= set(re.findall(r'\b[a-z_]\w*\b', imp_defs[n]))
+        # a mentioned name stands for the free function of that name and for every method of that name (receiver types are not resolved)
+        for key in [k for k in imp_defs if k == n or k.endswith('::' + n)]:
+            if key in exp_defs:
+                if imp_defs[key] != exp_defs[key]:
+                    problems.append('%s: spec fn `%s` is defined differently in the importing and the exporting unit' % (what, key))
+            todo |= set(re.findall(r'\b[a-z_]\w*\b', imp_defs[key]))
     return problems
 
 
@@ -107,6 +136,19 @@ def check_imports(template_path, all_units):
     lines = open(template_path).read().split('\n')
     for k, l in enumerate(lines):
         s = l.strip()
+        if s.startswith('//@@ same-spec '):
+            # //@@ same-spec <unit> :: name ...   -- spec functions this unit states its OWN contracts with and that are meant to be the
+            # exporter's (so that `valid` in a precondition here is the `valid` proved there): textual identity, transitively
+            unit, _, names = s[len('//@@ same-spec '):].partition('::')
+            unit = unit.strip()
+            if unit not in all_units:
+                problems.append('same-spec of unknown unit %s' % unit); continue
+            imp, exp = spec_defs(open(template_path).read()), spec_defs(open(all_units[unit]['path']).read())
+            for n in names.split():
+                if not any(k2 == n or k2.endswith('::' + n) for k2 in imp) or not any(k2 == n or k2.endswith('::' + n) for k2 in exp):
+                    problems.append('same-spec %s :: %s: not defined in both units' % (unit, n))
+            problems += compare_spec_fns(names.split(), imp, exp, 'same-spec %s' % unit)
+            continue
         if not s.startswith('//@@ import '):
             continue
         unit, _, label = s[len('//@@ import '):].partition('::')
